@@ -41,24 +41,34 @@ def parse_stub(text: str) -> dict:
     decls = []
     pending_pyname = None
     in_comment = False
+    depth = 0  # brace depth: only declarations at depth 0 are top-level (the generator sometimes emits the `class`
+    #            keyword of a NESTED class in column 0, so the column alone does not tell)
     for ln in lines[i:]:
+        st = ln.strip()
         if in_comment:
-            if ln.startswith(" */"):
+            if st.startswith("*/"):
                 in_comment = False
             continue
-        if ln.startswith("/**"):
-            in_comment = not ln.rstrip().endswith("*/")
+        if st.startswith("/**"):
+            in_comment = not st.endswith("*/")
             continue
-        m = _PYNAME.match(ln)
-        if m:
-            pending_pyname = m.group(1)
+        if st.startswith("//"):
             continue
-        m = _DECL.match(ln)
-        if m:
-            decls.append({"name": m.group(1), "python_name": pending_pyname or m.group(1)})
-            pending_pyname = None
-        elif ln and not ln.startswith(("@", "//", " ", ")", "}", "from ", "\t")):
-            pending_pyname = None
+        if depth == 0:
+            m = _PYNAME.match(ln)
+            if m:
+                pending_pyname = m.group(1)
+            else:
+                m = _DECL.match(ln)
+                if m:
+                    decls.append({"name": m.group(1), "python_name": pending_pyname or m.group(1)})
+                    pending_pyname = None
+                elif ln and not ln.startswith(("@", " ", ")", "}", "from ", "\t")):
+                    pending_pyname = None
+        if st.endswith("{"):
+            depth += 1
+        elif st == "}":
+            depth = max(0, depth - 1)
     return {"python_module": python_module, "package": package, "module_path": python_module or package, "decls": decls}
 
 
